@@ -267,6 +267,41 @@ func pathOp(c *Ctx, op string) {
 	c.Emit(op, ans, true)
 }
 
+// specReuseProbe (oracle only): the Spec a client's interceptors and the caller see is the
+// client's own - the procedure the answering handler is built with - also when the Request
+// value has been through another call before (another client, or a handler forwarding the
+// request it received to a downstream client).
+func specReuseProbe(c *Ctx) {
+	mk := func(url string, icpt *specIcpt) *connect.Client[[]byte, []byte] {
+		return connect.NewClient[[]byte, []byte](&staticClient{status: 200, header: http.Header{"Content-Type": {"application/raw"}}}, url,
+			connect.WithCodec(rawCodec{}), connect.WithInterceptors(icpt))
+	}
+	// (a) one Request value, two clients for two procedures
+	i1, i2 := &specIcpt{}, &specIcpt{}
+	c1, c2 := mk("http://h/acme.v1.A/First", i1), mk("http://h/acme.v1.B/Second", i2)
+	req := connect.NewRequest(&[]byte{1})
+	_, _ = c1.CallUnary(context.Background(), req)
+	_, _ = c2.CallUnary(context.Background(), req)
+	c.Count("spec-reuse-probe")
+	if i2.spec.Procedure != "/acme.v1.B/Second" || !i2.spec.IsClient || req.Spec().Procedure != "/acme.v1.B/Second" {
+		c.Fail("client-procedure", "a Request value used on a client for /acme.v1.A/First and then on one for /acme.v1.B/Second", fmt.Sprintf("second client's interceptor saw %q (IsClient=%v), Request.Spec() says %q", i2.spec.Procedure, i2.spec.IsClient, req.Spec().Procedure), "the client's Spec must be its own procedure, matching the handler that answers")
+	}
+	// (b) a handler forwards the request it received to a downstream client
+	i3 := &specIcpt{}
+	down := mk("http://h/acme.v1.Down/Stream", i3)
+	h := connect.NewUnaryHandler("/acme.v1.Front/Do", func(ctx context.Context, r *connect.Request[[]byte]) (*connect.Response[[]byte], error) {
+		_, _ = down.CallUnary(ctx, r)
+		return connect.NewResponse(&[]byte{1}), nil
+	}, connect.WithCodec(rawCodec{"raw"}))
+	hreq := httptest.NewRequest(http.MethodPost, "/acme.v1.Front/Do", strings.NewReader("\x05"))
+	hreq.Header.Set("Content-Type", "application/raw")
+	h.ServeHTTP(httptest.NewRecorder(), hreq)
+	c.Count("spec-reuse-probe")
+	if i3.count != 1 || i3.spec.Procedure != "/acme.v1.Down/Stream" || !i3.spec.IsClient {
+		c.Fail("client-procedure", "a handler for /acme.v1.Front/Do forwards the Request it received to a client for /acme.v1.Down/Stream", fmt.Sprintf("downstream interceptor saw %q (IsClient=%v, calls=%d)", i3.spec.Procedure, i3.spec.IsClient, i3.count), "the downstream client's Spec must be its own")
+	}
+}
+
 func streamDisp(c *Ctx) {
 	if replayOp != "" {
 		if strings.HasPrefix(replayOp, "disp") {
@@ -276,9 +311,10 @@ func streamDisp(c *Ctx) {
 		}
 		return
 	}
+	specReuseProbe(c)
 	r := c.Rng
 	kinds := []string{"unary", "client", "server", "bidi"}
-	codecSets := []string{"proto,json", "proto,json,raw", "proto,json,a,b", "proto,json,json2", "proto,json,raw+v2", "proto,json,,x", "proto,json,grpc,grpc-web", "proto,json,grpc+json,grpc-web+proto"}
+	codecSets := []string{"proto,json", "proto,json,raw", "proto,json,a,b", "proto,json,json2", "proto,json,raw+v2", "proto,json,,x", "proto,json,grpc,grpc-web", "proto,json,grpc+json,grpc-web+proto", "proto,json,Custom,MixedCase+v2"}
 	methods := []string{"POST", "GET", "PUT", "post", "OPTIONS", "HEAD", "DELETE", "PATCH", "POSTX", "POS", "CONNECT", "TRACE"}
 	versions := [][2]int{{1, 0}, {1, 1}, {2, 0}, {3, 0}}
 	procedure := "/acme.v1.Svc/Do"
